@@ -510,6 +510,14 @@ def run(ctx, rep, tier="quick"):
     for i in sub.items:
         i.clause = "S5"
         rep.items.append(i)
+    # a result never outlives the run that reported it (shared with C02-S5: the simulator's mailbox is drained on every poll) -
+    # otherwise a row stamped before the pause is delivered after the resume and a level comes twice
+    sub2 = type(rep)(rep.prop)
+    c02.s5(ctx, sub2)
+    for i in sub2.items:
+        if "drained on every exit" in i.construct or "paired with cursor advance" in i.construct:
+            i.clause = "S5"
+            rep.items.append(i)
     s6(ctx, rep)
     s2b(ctx, rep)
     s5b(ctx, rep)
